@@ -264,7 +264,8 @@ def load_program(use_cache=True, verbose=False):
     binh = sha(_read(IPQFACTS))
     keys = {}
     for rel, flags in units.items():
-        keys[rel] = sha(rel, _read(os.path.join(SRC, rel)), hh, " ".join(flags), binh)
+        # absolute paths of the analysed tree are normalised so that a scratch copy of the repository shares the cache
+        keys[rel] = sha(rel, _read(os.path.join(SRC, rel)), hh, " ".join(flags).replace(os.path.realpath(REPO), "$REPO").replace(REPO, "$REPO"), binh)
     pkey = sha(*[keys[r] for r in sorted(keys)])
     os.makedirs(os.path.join(CACHE, "facts"), exist_ok=True)
     ppath = os.path.join(CACHE, "program-%s.pkl" % pkey[:24])
@@ -300,10 +301,21 @@ def load_program(use_cache=True, verbose=False):
     P.key = pkey
     if use_cache:
         # keep the cache small: drop older merged programs and unit facts that are no longer current
-        for fn in os.listdir(CACHE):
-            if fn.startswith("program-") and fn != os.path.basename(ppath):
+        # (never another process's temporary file; keep the few most recent so that concurrent checks of the real
+        # tree and of scratch copies do not evict each other)
+        progs = sorted((fn for fn in os.listdir(CACHE) if fn.startswith("program-") and fn.endswith(".pkl")),
+                       key=lambda fn: os.path.getmtime(os.path.join(CACHE, fn)) if os.path.exists(os.path.join(CACHE, fn)) else 0)
+        for fn in progs[:-6]:
+            if fn != os.path.basename(ppath):
                 try:
                     os.remove(os.path.join(CACHE, fn))
+                except OSError:
+                    pass
+        for fn in os.listdir(CACHE):
+            if fn.endswith(".tmp"):
+                try:
+                    if time.time() - os.path.getmtime(os.path.join(CACHE, fn)) > 1800:
+                        os.remove(os.path.join(CACHE, fn))
                 except OSError:
                     pass
         cur = set(os.path.basename(p) for p in paths.values())
